@@ -71,7 +71,7 @@ GetType(v, k) ==
     [] v.k = "ddict"    -> TDDict(Shrink({GetType(x, k) : x \in DKeys(v)}, k),
                                   Shrink({GetType(x, k) : x \in DVals(v)}, k))
     [] v.k = "tuple"    -> TTuple([i \in 1..Len(v.a) |-> GetType(v.a[i], k)])
-    [] v.k = "str"      -> TCls("str")
+    [] v.k = "str"      -> TCls(ClassOf(v))
     [] OTHER            -> TCls(v.n)
 
 \* the whole pipeline for one collection of values
